@@ -113,8 +113,30 @@ class Check:
         impl_out, orc_out, model_out = [os.path.join(self.work, n + "_" + area) for n in ("impl.out", "oracle.out", "model.out")]
         rc, out = core.sh([hb, "run", cases, impl_out, orc_out], timeout=3000, mem_limit=24 << 30)
         if rc != 0:
-            self.violations.append(("impl", "harness run crashed (rc=%d)" % rc,
-                                    "theorem-or-correspondence: harness %s run\n%s" % (bins[0], out[-2000:]), False))
+            # which case?  the smallest prefix of the case file on which the run still crashes (bisection), then that case alone
+            lo, hi = 0, len(allc)           # allc[:lo] runs, allc[:hi] crashes
+            sub = cases + ".bisect"
+            def crashes(cs):
+                with open(sub, "w") as f:
+                    for i, c in enumerate(cs):
+                        f.write("%d\t%s\n" % (i, c))
+                try:
+                    return core.sh([hb, "run", sub, impl_out + ".b", orc_out + ".b"], timeout=1200, mem_limit=24 << 30)[0] != 0
+                except Exception:
+                    return True
+            while hi - lo > 1 and hi > 0:
+                mid = (lo + hi) // 2
+                if crashes(allc[:mid]):
+                    hi = mid
+                else:
+                    lo = mid
+            if hi > 0 and crashes([allc[hi - 1]]):
+                self.violations.append(("impl", "the harness (%s) crashes (rc=%d: panic, abort or memory limit) on one case" % (bins[0], rc),
+                                        "theorem-or-correspondence: harness %s run\ncase (alone in a case file, `%s run <file> impl.out oracle.out`):\n0\t%s\n%s"
+                                        % (bins[0], hb, allc[hi - 1], out[-1500:]), True))
+            else:
+                self.violations.append(("impl", "harness run crashed (rc=%d)" % rc,
+                                        "theorem-or-correspondence: harness %s run\nfirst crashing prefix of the case file: %d cases\n%s" % (bins[0], hi, out[-2000:]), False))
             return None
         if not core.run_model(exe, cases, model_out):
             self.violations.append(("build", "model run failed", "theorem-or-correspondence: modelrun %s" % area, False))
